@@ -261,7 +261,7 @@ def run(ctx):
             if rng.random() < 0.5:
                 opts['path'] = rng.choice(['radial', 'spiral'])
             if rng.random() < 0.4:
-                opts['dtheta'] = rng.choice([math.pi / 8, 0.3, math.pi / 4])
+                opts['dtheta'] = rng.choice([math.pi / 8, 0.3, math.pi / 4, -math.pi / 8, -0.3, -1.0])        # either sense of rotation
         G = {'min': MinStepGenerator, 'max': MaxStepGenerator, 'c': CStepGenerator}[cls]
         key = (cls, m, n, o, x, tuple(sorted((k, str(v)) for k, v in opts.items())))
         try:
